@@ -4,7 +4,7 @@ use super::{Prop, Tier};
 use crate::core::case::*;
 use crate::core::rt;
 use crate::gen::WeightRegime;
-use crate::oracle::close;
+use crate::oracle::close_rel as close;
 use crate::oracle::dist::DistOracle;
 use crate::pool;
 use crate::runner::Ctx;
@@ -28,11 +28,12 @@ impl Prop for C06Prop {
             large_pct: 20,
             n_small: (0, 10),
             n_large: (21, 50),
-            regimes: vec![WeightRegime::AllNan, WeightRegime::Dyadic, WeightRegime::SmallInt, WeightRegime::Nasty],
+            regimes: vec![WeightRegime::AllNan, WeightRegime::Dyadic, WeightRegime::SmallInt, WeightRegime::Nasty, WeightRegime::Tiny, WeightRegime::NearEqual, WeightRegime::MixedScale],
             kinds: AlgoGen::all_kinds(),
             shapes: None,
             lifecycle_pct: 30,
             keyings: 1,
+            boundary_per_mille: 0,
         }
         .gen("C06", seed, idx)
     }
